@@ -263,3 +263,11 @@ def k8(ctx):
 
 
 RULES.append(k8)
+
+
+@rule("MC", doc="must-call census: no function of this property's files has gained an early exit in front of work it always did (every crate-local call that lay on all paths to a normal return in the reviewed tree still does)")
+def mc(ctx):
+    C.must_call_census(ctx, ctx.lib(), ['src/egraph/mod.rs', 'src/lang.rs', 'src/group/mod.rs', 'src/slot.rs', 'src/rewrite/ematch.rs', 'src/parse.rs'])
+
+
+RULES.append(mc)
